@@ -25,6 +25,7 @@ MAX_BRUTE = 4096
 
 def _refusal_types() -> tuple[type, ...]:
     from cirkit.backend.compiler import CompilationRuleNotFound
+    from cirkit.backend.registry import CompilationRuleNotFound as CompilationRuleNotFound2
     from cirkit.symbolic.circuit import StructuralPropertyError
     from cirkit.symbolic.registry import OperatorNotFound, OperatorSignatureNotFound
 
@@ -34,6 +35,7 @@ def _refusal_types() -> tuple[type, ...]:
         OperatorSignatureNotFound,
         OperatorNotFound,
         CompilationRuleNotFound,
+        CompilationRuleNotFound2,
     )
 
 
